@@ -167,8 +167,12 @@ def evaluate(case):
         return _evaluate_reject(case)
     cfg = case["cfg"]
     phi = Phi(cfg)
-    algc = kd.build_algebra(cfg)
-    algd = kd.build_algebra(phi.dcfg)
+    try:
+        algc = kd.build_algebra(cfg)
+        algd = kd.build_algebra(phi.dcfg)
+    except Exception as e:
+        raise Violation("custom-basis-constructible", "Algebra", f"constructing the algebra for {cfg} (or its default-basis twin) raised "
+                        f"{type(e).__name__}: {e}", exc=type(e).__name__)
     d = phi.refc.d
     labels = ["kind:" + ("relabel" if case["kind"] == "relabel" else "access"), f"d:{d}",
               "basis:named" if cfg.get("named") else "basis:custom"]
@@ -233,7 +237,11 @@ def evaluate(case):
 
 
 def _evaluate_reject(case):
-    A, B = kd.build_algebra(case["A"]), kd.build_algebra(case["B"])
+    try:
+        A, B = kd.build_algebra(case["A"]), kd.build_algebra(case["B"])
+    except Exception as e:
+        raise Violation("custom-basis-constructible", "Algebra", f"constructing {case['A']} / {case['B']} raised {type(e).__name__}: {e}",
+                        exc=type(e).__name__)
     x = kd.mk(A, case["ka"], [F(2 + i, 3) for i in range(len(case["ka"]))])
     y = kd.mk(B, case["kb"], [F(5 - i, 2) for i in range(len(case["kb"]))])
     if case["swap"]:
